@@ -154,7 +154,17 @@ def handle_path_command(args: argparse.Namespace) -> None:  # noqa: PLR0912, D10
         sys.exit(1)
 
     indent = INDENT if args.pretty else None
-    json.dump(values, args.output, indent=indent)
+
+    # Serialize before writing anything, so a failure leaves no partial output.
+    try:
+        output = json.dumps(values, indent=indent)
+    except RecursionError as err:
+        if args.debug:
+            raise
+        sys.stderr.write(f"recursion error: {err}\n")
+        sys.exit(1)
+
+    args.output.write(output)
 
 
 def main() -> None:
